@@ -79,7 +79,8 @@ def emptiness_case(rng) -> Dict[str, Any]:
     terms = gen.feasible_point_list(rng, vs, rng.randint(0, 3), rng.choice(["int", "dyadic"]))
     mode = rng.choice(["feasible", "gap", "gap", "unbounded", "box"])
     if mode == "gap":
-        t = dterm(rng, vs)
+        t = dterm(rng, vs) if rng.random() < 0.6 else gen.T({rng.choice(vs): rng.choice([1.0, -1.0])},
+                                                            float(rng.randint(-3, 3)))
         margin = rng.choice([1.0, 1e-3, 2e-3, 0.0, -1e-3, -2e-3, -1.0, 0.125, -0.125, 1e-5, -1e-5])
         opp = {"c": {v: -c for v, c in t["c"].items()}, "k": -t["k"] + margin}
         pos = rng.randint(0, len(terms))
@@ -193,6 +194,29 @@ def run_case(ctx: Ctx, case: Dict[str, Any]) -> None:  # noqa: C901
                 ctx.violation("emptiness-wrong:%s" % cls, "is_empty(%s) answered %s; over Q the system is %s" % (
                     X.fmt_list(case["terms"]), got, cls), case)
             nontrivial = cls != "band"
+        # the same question about a list that differs in one number only (-1 <-> -2, 1 <-> 2: equal float hashes
+        # in CPython): an answer must never be carried over from a look-alike asked earlier in the process
+        if not case.get("_derived"):
+            for old_v, new_v in ((-1.0, -2.0), (-2.0, -1.0), (1.0, 2.0)):
+                twin = [dict(c=dict(t["c"]), k=t["k"]) for t in case["terms"]]
+                hit = False
+                for t in twin:
+                    if t["k"] == old_v:
+                        t["k"] = new_v
+                        hit = True
+                        break
+                    for v, c in t["c"].items():
+                        if c == old_v:
+                            t["c"][v] = new_v
+                            hit = True
+                            break
+                    if hit:
+                        break
+                if hit:
+                    ctx.count("emptiness:look-alike-twin")
+                    run_case(ctx, {"kind": "emptiness", "mode": case["mode"] + "-twin", "terms": twin,
+                                   "_derived": True})
+                    break
     else:
         L, R = P.mk_list(case["left"]), P.mk_list(case["right"])
         beh = {P.mk_var(v): x for v, x in case["behavior"].items()}
